@@ -25,15 +25,15 @@ CHECKS = {
  'C06': dict(level='exploration', tech='bounded exhaustive enumeration of (prefix construct x error kind x placement) with a reference line map',
    text="All combinations of 19 line-shifting prefix constructs (block comments, continuation lines, multi-line macros, conditionals, includes of C and assembler files with and without final newline, non-ASCII text) x 18 error kinds (preprocessor, syntax, semantic, generator stage in statements and in local initialisers) x 5 placements: the diagnostic must name the file, physical line and include chain computed by an independent line accounting; the preprocessor line map is checked against the reference on every line.", ref='4 C06'),
  'C08': dict(level='exploration', tech='bounded exhaustive enumeration of macro definition sets x use sites against a reference expander',
-   text="20 definition sets (object-like chains, function-like macros with 1-3 parameters, parameters named like macros, nested invocations, redefinition, #undef, -D options) x all use-site fillers: the preprocessed text and the compiled constants must equal a reference expander written for the documented semantics.", ref='4 C08'),
+   text="22 definition sets (object-like chains, bodies that start with a parenthesised identifier, function-like macros with 1-3 parameters, parameters named like macros, nested invocations, redefinition, #undef, -D options) x all use-site fillers: the preprocessed text and the compiled constants must equal a reference expander written for the documented semantics.", ref='4 C08'),
  'C09': dict(level='exploration', tech='bounded exhaustive enumeration of literal atoms x places, decoded bytes compared with a reference decoder',
    text="All atoms (every escape, quotes, comment markers and macro names inside literals, adjacent literals) x 21 places (initialisers, arguments, tables, asm(), around #include, after skipped #if regions that contain literals, three calls in one expression followed by another literal, a literal continued after a backslash-newline, two calls with literals in a local initialiser, a character constant named like a macro): the bytes that reach the variable table / emitted code must be the C decoding of the literal and nothing inside a literal may be treated as a comment, macro or directive.", ref='4 C09'),
  'C10': dict(level='exploration', tech='bounded exhaustive enumeration of constant expressions x positions against a reference evaluator',
    text="All constant expressions to the depth of the tier over the full operator set, in every position where the compiler folds (initialisers, array sizes, aligned(), asm size, statements, conditions): the folded value must equal a reference evaluator with C semantics, be the same in every position and the same as the run-time evaluation on the emulator; expressions outside the representable range must be rejected.", ref='4 C10'),
  'C11': dict(level='exploration', tech='bounded exhaustive enumeration of layout decorations x token gaps, record compared with the undecorated program',
-   text="Every token gap of every corpus program x 20 decorations (spaces, tabs, newlines, comments of both kinds incl. two adjacent comments, continuation lines, CRLF, missing final newline), every single blank replaced by a block comment, and the non-semantic options: the compilation record (variables, functions, emitted text) must be identical to the undecorated compilation.", ref='4 C11'),
+   text="Every token gap of every corpus program x 23 decorations (spaces, tabs, newlines, comments of both kinds incl. two adjacent comments and // comments that start with * or */, continuation lines, CRLF, missing final newline), every single blank replaced by a block comment, and the non-semantic options: the compilation record (variables, functions, emitted text) must be identical to the undecorated compilation.", ref='4 C11'),
  'C12': dict(level='exploration', tech='bounded exhaustive enumeration of call graphs (subsets of a function library x bodies) against a reference reachability computation',
-   text="All enumerated call graphs over a 25-function library (direct, nested, inline, interrupt roots, recursion-free cycles through prototypes, calls in every expression position): the in-use set and the emitted functions must equal the reachability closure computed on the harness AST, and the program must execute identically with unreachable functions removed.", ref='4 C12'),
+   text="All enumerated call graphs over a 29-function library (direct, nested, inline, interrupt roots, recursion-free cycles through prototypes, calls in every expression position): the in-use set and the emitted functions must equal the reachability closure computed on the harness AST, and the program must execute identically with unreachable functions removed.", ref='4 C12'),
  'C14': dict(level='exploration', tech='bounded exhaustive enumeration of inline subsets, co-execution against the non-inlined program',
    text="For every body of the library and every subset of its functions marked inline the program must leave the same final state as with no function inlined, at -O0 and -O1, from every enumerated input; labels of repeated expansions must stay unique.", ref='4 C14'),
  'C15': dict(level='exploration', tech='bounded exhaustive enumeration of (program x rewrite site), differential co-execution of the two spellings',
@@ -41,7 +41,7 @@ CHECKS = {
  'C16': dict(level='fault_enumeration', tech='exhaustive single-fault enumeration (token deletion, replacement, duplication, truncation at every position) over a corpus, in isolated processes',
    text="Every single-token deletion, duplication, swap and replacement (40 replacement tokens) and every truncation point of 33 corpus programs, layout variants of each program (last lines joined, no final newline) under the listing option, plus ~400 directed hostile inputs each under two option sets, plus every valid program of the shared executable corpus (compile only): compile() must return Ok or a located error; a panic, abort, hang (watchdog) or memory blow-up (address-space limit) is a violation, attributed to the innermost compiler function.", ref='4 C16'),
  'C17': dict(level='exploration', tech='bounded exhaustive enumeration of (statement x split-port placement), execution on an emulator with a split-port RAM fault model',
-   text="All 74 statements (thorough: pairs) x 15 subsets of variables placed in split-port RAM x 3 cartridge schemes at -O0/-O1 are executed on the emulator whose RAM model faults on a read of a write port, a write to a read port and any read-modify-write; results are compared with the same program using ordinary variables.", ref='4 C17'),
+   text="All 82 statements (thorough: pairs) x 15 subsets of variables placed in split-port RAM x 3 cartridge schemes at -O0/-O1 are executed on the emulator whose RAM model faults on a read of a write port, a write to a read port and any read-modify-write; results are compared with the same program using ordinary variables.", ref='4 C17'),
  'C18': dict(level='exploration', tech='bounded exhaustive enumeration of csleep counts x surrounding code, cycle-exact measurement on the emulator',
    text="Every csleep(n) for n in the accepted range, alone, in adjacent pairs/triples and between every pair of surrounding statements, at every optimisation level: the cycles measured between two marker strobes on the cycle-exact emulator must equal n plus the surroundings' own cycles, registers and flags-dependent behaviour must be unchanged; volatile accesses (strobe, load, store, asm) must appear in the access trace in source order and number at every level, also when they sit in inlined functions, and at the address the source names (a block of registers reached with subscripts that have side effects or need a register); regions made of explicit statements only must take the same number of cycles at every level.", ref='4 C18'),
 }
